@@ -15,3 +15,6 @@ def check(rep, tier):
     rep.run(rules_exact.run, rep, tier, ("X-vjp", "X-jvp", "X-shape"), only=("same-value-twice", "shared-cotangent"))
     rep.run(rules_exact.run, rep, tier, ("X-vjp", "X-jvp"), which="index", only=("mix",))
     rep.run(rules_scalar.run_kinks, rep, tier)
+    from contracts import containers, diffops
+    rep.run(containers.run_ground, rep, tier)     # accumulation of container-valued cotangents (leaf-wise, first argument only)
+    rep.run(diffops.run_ops, rep, tier)           # second-order operators: the outer derivative is taken wrt the SAME argument
